@@ -179,6 +179,7 @@ impl Engine for SeqEngine {
             sweeper: None,
             create_empty_file: format == 3 && c.chance(1, 4),
             allow_ambiguous: false,
+            ring: gen_ring(seed),
         };
 
         let n_ops = p.min_ops + w.below(p.max_ops - p.min_ops + 1);
